@@ -102,7 +102,7 @@ impl LoopCampaign {
     let span = t.max(1);
     let kbd_end_at = if rng.chance(1, 8) { Some(rng.below(span as usize + 1) as u64) } else { None };
     let tab_end_at = if has_tablet && rng.chance(1, 16) { Some(rng.below(span as usize + 1) as u64) } else { None };
-    CaseB { layout, layout_name: name, kbd, tab, has_tablet, cfg, tape: vec![], fail_at: None, extra_ticks: rng.below(6) as u32, kbd_end_at, tab_end_at, hybrid: self.hybrid, write_fault: None }
+    CaseB { layout, layout_name: name, kbd, tab, has_tablet, cfg, tape: vec![], fail_at: None, extra_ticks: rng.below(6) as u32, kbd_end_at, tab_end_at, hybrid: self.hybrid, write_fault: None, read_fault: None }
   }
 }
 
@@ -115,13 +115,17 @@ fn run_b(case: &CaseB, record: Option<u64>) -> Result<Outcome, String> {
   }
 }
 
+/// Disagreements between the real driver on pipes and the simulated devices belong to the byte
+/// layer (C18) and, for the real driver's poll/read mapping, to C10.
+fn hybrid_label(en: &EnB) -> Option<&'static str> { if en.c18 { Some("C18-hybrid") } else if en.c10 { Some("C10-hybrid") } else { None } }
+
 /// Execute in replay mode and evaluate the enabled projection.
 pub fn replay_b(case: &CaseB, en: &EnB, obs: &mut ObsB) -> Result<Option<Violation>, String> {
   let o = run_b(case, None)?;
   let l = case.layout.clone();
   let en2 = *en;
   let r = catch_unwind(AssertUnwindSafe(|| check_trace(&l, &o.trace, &o.result, &en2, obs))).map_err(|e| format!("reference loop panicked: {}", panic_msg(&e)))?;
-  if r.is_none() && en.c18 { if let Some(be) = &o.byte_error { return Ok(Some(Violation::new("C18-hybrid", o.trace.len(), be.clone()))); } }
+  if r.is_none() { if let Some(be) = &o.byte_error { if let Some(lab) = hybrid_label(en) { return Ok(Some(Violation::new(lab, o.trace.len(), be.clone()))); } } }
   Ok(r)
 }
 
@@ -221,7 +225,8 @@ impl Campaign for LoopCampaign {
   fn declare(&self, acc: &mut Acc) {
     for f in ["signal_interrupts_poll", "spurious_timeout_idle", "spurious_readiness", "io_latency_in_call", "timer_oversleep", "keyboard_unplugged", "tablet_switch_unplugged", "device_order_flipped", "arrival_during_drain", "backoff_sleep"] { acc.declare_fault(f); }
     if self.sweep { acc.declare_fault("io_error_in_driver_call"); }
-    if self.write_faults { for f in ["os_write_eagain_under_real_writer", "os_write_epipe_under_real_writer", "os_write_ebadf_under_real_writer"] { acc.declare_fault(f); } }
+    if self.write_faults { for f in ["os_write_eagain_under_real_writer", "os_write_epipe_under_real_writer", "os_write_ebadf_under_real_writer", "os_read_ebadf_under_real_driver"] { acc.declare_fault(f); } }
+    if self.hybrid { acc.declare_probe("real_driver_polls_cross_checked"); }
     acc.declare_probe("wakeup_with_two_or_more_events"); acc.declare_probe("both_devices_ready_in_one_wakeup");
     if self.property == "C11" || self.property == "C12" || self.property == "C10" { acc.declare_probe("repeat_chords_sent"); acc.declare_probe("timer_ticks"); }
     if self.property == "C11" { for p in ["chord_while_keys_held", "chord_with_repeat_key_already_held", "timer_disarmed_by_key_event", "ignored_event_while_timer_armed", "poll_with_overdue_timer"] { acc.declare_probe(p); } }
@@ -246,7 +251,8 @@ impl Campaign for LoopCampaign {
       let s = &o.stats;
       acc.fault("signal_interrupts_poll", s.eintr); acc.fault("spurious_timeout_idle", s.spurious_timeout); acc.fault("spurious_readiness", s.spurious_ready);
       acc.fault("io_latency_in_call", s.latency); acc.fault("timer_oversleep", s.oversleep); acc.fault("keyboard_unplugged", s.kbd_unplugged); acc.fault("tablet_switch_unplugged", s.tab_unplugged);
-      acc.fault("io_error_in_driver_call", s.io_error); acc.fault("os_write_eagain_under_real_writer", s.os_write_fault[0]); acc.fault("os_write_epipe_under_real_writer", s.os_write_fault[1]); acc.fault("os_write_ebadf_under_real_writer", s.os_write_fault[2]); acc.fault("device_order_flipped", s.order_flipped); acc.fault("arrival_during_drain", s.arrival_during_drain); acc.fault("backoff_sleep", s.backoff_sleeps);
+      acc.fault("io_error_in_driver_call", s.io_error); acc.fault("os_write_eagain_under_real_writer", s.os_write_fault[0]); acc.fault("os_write_epipe_under_real_writer", s.os_write_fault[1]); acc.fault("os_write_ebadf_under_real_writer", s.os_write_fault[2]); acc.fault("os_read_ebadf_under_real_driver", s.os_read_fault);
+      acc.probe_n("real_driver_polls_cross_checked", s.real_polls_compared); acc.fault("device_order_flipped", s.order_flipped); acc.fault("arrival_during_drain", s.arrival_during_drain); acc.fault("backoff_sleep", s.backoff_sleeps);
       acc.probe_n("wakeup_with_two_or_more_events", s.multi_event_wakeups); acc.probe_n("both_devices_ready_in_one_wakeup", s.both_devices_ready); acc.probe_n("wakeup_with_sixteen_or_more_events", s.max_events_one_wakeup);
       acc.count("steps", o.trace.len() as u64); acc.count("sim_us", o.sim_us); acc.count("backoff_slept_us", o.slept_us); acc.count("trace_cap_hit", s.trace_cap_hit);
     };
@@ -256,7 +262,7 @@ impl Campaign for LoopCampaign {
       Ok(v) => v,
       Err(e) => { harness_error = Some(format!("reference loop panicked: {}", panic_msg(&e))); None }
     };
-    if verdict.is_none() && self.en.c18 { if let Some(be) = &out.byte_error { verdict = Some(Violation::new("C18-hybrid", out.trace.len(), be.clone())); } }
+    if verdict.is_none() { if let Some(be) = &out.byte_error { if let Some(lab) = hybrid_label(&self.en) { verdict = Some(Violation::new(lab, out.trace.len(), be.clone())); } } }
     let mut fail_case = case.clone();
     let mut state_hashes = vec![obs.shape];
     let mut digest = out.digest;
@@ -303,7 +309,30 @@ impl Campaign for LoopCampaign {
           }
         }
       }
-      acc.count("os_write_fault_executions", evaluations_extra);
+      // every read of this schedule fails in turn underneath the real driver (EBADF)
+      let n_k = out.trace.iter().filter(|it| matches!(it, Item::NextK { .. })).count();
+      let n_t = out.trace.iter().filter(|it| matches!(it, Item::NextT { .. })).count();
+      if verdict.is_none() {
+        'outer2: for (n, tablet) in [(n_k, false), (n_t, true)] {
+          for k in 0..n {
+            let mut ck = case.clone(); ck.read_fault = Some((k, tablet));
+            match run_b(&ck, None) {
+              Ok(ok) => {
+                evaluations_extra += 1;
+                tally(&ok, acc);
+                let mut o2 = ObsB::default();
+                let v = match catch_unwind(AssertUnwindSafe(|| check_trace(&l, &ok.trace, &ok.result, &en, &mut o2))) { Ok(v) => v, Err(e) => { harness_error = Some(format!("reference loop panicked: {}", panic_msg(&e))); None } };
+                state_hashes.push(o2.shape);
+                digest = crate::rng::mix(digest, ok.digest);
+                if ok.stats.os_read_fault == 0 { harness_error = Some(format!("read-fault sweep: read {} of {} (tablet={}) was never reached on re-execution", k, n, tablet)); }
+                if let Some(v) = v { verdict = Some(v); fail_case = ck; break 'outer2; }
+              }
+              Err(p) => { acc.count("sut_panics_in_sweep", 1); }
+            }
+          }
+        }
+      }
+      acc.count("os_fault_executions", evaluations_extra);
     }
     acc.probe_n("repeat_chords_sent", obs.chords); acc.probe_n("timer_ticks", out.stats.timer_ticks);
     if self.property == "C11" {
@@ -343,7 +372,7 @@ impl Campaign for LoopCampaign {
   fn components(&self) -> Value {
     let mut real = vec!["remapping_loop::do_remapping_loop_one_device (through hook H1)", "key_transforms::Mapper inside the loop", "JSON parser + converter for the layout"];
     let mut stub = vec!["keyboard and tablet-switch devices (queues with edge-triggered readiness)", "poll (discrete-event clock, jumps to next arrival/deadline)", "Instant::now / thread::sleep (simulated clock via hook H1)", "uinput consumer (records batches)"];
-    if self.hybrid { real.extend(["dev_input_rw::DevInputReader::next on a pipe", "tablet_mode_switch_reader::TabletModeSwitchReader::next on a pipe", "dev_input_rw::DevInputWriter::send on a pipe (hook H2)"]); stub.push("kernel evdev/uinput nodes (non-blocking pipes the simulator fills and drains)"); }
-    json!({"real": real, "stub": stub, "trusted": ["RefLoop (loopsim.rs check_trace) with its own real Mapper"], "not_run": ["RealDriver (mio registration, errno mapping)", "DevInputWriter::open (uinput ioctls)", "multi-device thread spawners"]})
+    if self.hybrid { real.extend(["remapping_loop::RealDriver on pipes (hook H3): register_poll (mio), poll with zero timeout (token -> device mapping, cross-checked at every simulated wake-up), next_keyboard / next_tablet / send (errno mapping)", "dev_input_rw::DevInputReader::next on a pipe", "tablet_mode_switch_reader::TabletModeSwitchReader::next on a pipe", "dev_input_rw::DevInputWriter::send on a pipe (hook H2)"]); stub.push("kernel evdev/uinput nodes (non-blocking pipes the simulator fills and drains)"); }
+    json!({"real": real, "stub": stub, "trusted": ["RefLoop (loopsim.rs check_trace) with its own real Mapper"], "not_run": [if self.hybrid { "RealDriver::poll with a non-zero timeout (real waiting), ENODEV -> End (a pipe cannot produce it)" } else { "RealDriver (mio registration, errno mapping)" }, "DevInputWriter::open (uinput ioctls)", "multi-device thread spawners"]})
   }
 }
